@@ -447,10 +447,15 @@ func BlockForever() {
 //
 //go:norace
 func Gosched() {
-	if S == nil {
+	s := S
+	if s == nil {
 		runtime.Gosched()
 		return
 	}
+	if s.dying {
+		return
+	}
+	s.cur.yielded = true
 	Yield("Gosched")
 }
 
@@ -575,6 +580,9 @@ func NewTimer(d time.Duration) *Timer {
 func AfterFunc(d time.Duration, f func()) *Timer {
 	s := S
 	if s == nil || s.dying {
+		if hosted != "" {
+			return &Timer{} // see Go
+		}
 		return &Timer{real: time.AfterFunc(d, f)}
 	}
 	tm := &simTimer{fn: f}
@@ -682,6 +690,9 @@ func (t *Ticker) Reset(d time.Duration) {
 func CtxAfterFunc(ctx context.Context, f func()) (stop func() bool) {
 	s := S
 	if s == nil || s.dying {
+		if hosted != "" {
+			return func() bool { return true } // see Go
+		}
 		return context.AfterFunc(ctx, f)
 	}
 	st := &afterFuncState{}
